@@ -17,7 +17,7 @@ ASSUMPTIONS = [
     "generators have distinct priorities per path (ties are not specified)",
     "the device file differ is annet.diff.UnifiedFileDiffer (the shipped default implementation), PC hardware, software string without Cumulus/SONiC",
 ]
-FLOORS = {"quick": {"listing_orders": 3000, "jobs_parsed": 3000, "shared_paths": 500, "forced_runs": 500, "diffs_checked": 1500, "cases_with_unsupported_generators": 400, "safe_mode_jobs": 2000, "safe_mode_jobs_with_empty_safe_set": 200, "cases_with_multi_line_files": 800, "cases_with_a_device_file_holding_the_same_lines_in_another_order": 300},
+FLOORS = {"quick": {"listing_orders": 3000, "jobs_parsed": 3000, "shared_paths": 500, "forced_runs": 500, "diffs_checked": 1500, "cases_with_unsupported_generators": 400, "safe_mode_jobs": 2000, "safe_mode_jobs_with_empty_safe_set": 200, "cases_with_multi_line_files": 800, "cases_with_a_device_file_holding_the_same_lines_in_another_order": 300, "cases_with_instance_level_priorities": 800, "generators_without_a_reload_command": 500},
           "thorough": {"listing_orders": 120000, "jobs_parsed": 120000, "shared_paths": 20000, "forced_runs": 20000, "diffs_checked": 60000, "cases_with_unsupported_generators": 15000, "safe_mode_jobs": 80000, "safe_mode_jobs_with_empty_safe_set": 8000}}
 PATHS = ["/etc/a.conf", "/etc/b/b.conf", "/etc/c"]
 KNOWN_NL = "C19/upload-decision-blind-to-trailing-newline"
@@ -54,7 +54,9 @@ class _Driver:
         raise AssertionError("not a CLI device")
 
 
-def make_entire(name, path, prio, output, reload, safe, unsupported=False):
+def make_entire(name, path, prio, output, reload, safe, unsupported=False, prio_on="class", **_):
+    """prio_on: the priority is a class attribute (usual), set on the instance after construction, or left to the default (100);
+    reload None: the generator does not define reload() at all, "<none>": it returns None"""
     from annet.generators import Entire, NotSupportedDevice
     from vf.harness_gen import FakeStorage
 
@@ -62,10 +64,18 @@ def make_entire(name, path, prio, output, reload, safe, unsupported=False):
         if unsupported:
             raise NotSupportedDevice("not for this device")
         return _o
-    ns = {"path": lambda self, device, _p=path: _p, "run": run,
-          "reload": lambda self, device, _r=reload: _r, "is_safe": lambda self, device, _s=safe: _s, "prio": prio, "TAGS": []}
+    ns = {"path": lambda self, device, _p=path: _p, "run": run, "is_safe": lambda self, device, _s=safe: _s, "TAGS": []}
+    if reload == "<none>":
+        ns["reload"] = lambda self, device: None
+    elif reload is not None:
+        ns["reload"] = lambda self, device, _r=reload: _r
+    if prio_on == "class":
+        ns["prio"] = prio
     cls = types.new_class(name, (Entire,), {}, lambda d: d.update(ns))
-    return cls(storage=FakeStorage())
+    inst = cls(storage=FakeStorage())
+    if prio_on == "instance":
+        inst.prio = prio
+    return inst
 
 
 def gen_case(rng):
@@ -88,7 +98,11 @@ def gen_case(rng):
 RICH = ["nameserver 1.1.1.1\nnameserver 8.8.8.8\n", "a\nb\nc\n", "permit x\ndeny y\npermit z\ndeny y\n", "k = 1\nk = 2", "one\n\ntwo\n"]
 
 
-def check_case(seed, acc, unsupported=False, perm=False):
+def rl(r):
+    return "" if r in (None, "<none>") else r
+
+
+def check_case(seed, acc, unsupported=False, perm=False, inst=False):
     import annet.deploy as AD
     from annet import api, cli_args
     from annet.generators import run_file_generators
@@ -125,8 +139,21 @@ def check_case(seed, acc, unsupported=False, perm=False):
         acc.count("cases_with_multi_line_files")
         if any(old.get(g["path"]) is not None and old[g["path"]] != g["output"] and sorted(old[g["path"]].split("\n")) == sorted(g["output"].split("\n")) for g in gens_spec):
             acc.count("cases_with_a_device_file_holding_the_same_lines_in_another_order")
+    if inst:
+        # priorities given to generator objects rather than classes (one class serving several paths/prios), the default priority,
+        # and generators without a reload command of their own
+        irng = random.Random(seed ^ 0x1257)
+        for g in gens_spec:
+            g["prio_on"] = irng.choice(["instance", "instance", "class"])
+            if irng.random() < 0.35:
+                g["reload"] = irng.choice([None, "<none>"])
+        if irng.random() < 0.3 and all(g["prio"] != 100 for g in gens_spec):
+            g = irng.choice(gens_spec)
+            g["prio"], g["prio_on"] = 100, "default"
+        acc.count("cases_with_instance_level_priorities")
+        acc.count("generators_without_a_reload_command", sum(1 for g in gens_spec if g["reload"] in (None, "<none>")))
     dev = H.FakeDevice(HardwareView("PC", "Linux"), pc=True)
-    w = {"seed": seed, "unsupported": unsupported, "perm": perm, "generators": gens_spec, "old_files": old}
+    w = {"seed": seed, "unsupported": unsupported, "perm": perm, "inst": inst, "generators": gens_spec, "old_files": old}
     # expected winner per path
     exp = {}
     for g in gens_spec:
@@ -153,12 +180,12 @@ def check_case(seed, acc, unsupported=False, perm=False):
         if shared:
             acc.count("shared_paths")
         acc.case([gens_spec, list(order), old], nontrivial=nontrivial)
-        want = {p: (g["output"], g["reload"]) for p, g in exp.items()}
+        want = {p: (g["output"], rl(g["reload"])) for p, g in exp.items()}
         if {p: tuple(v) for p, v in nf.items()} != want:
             acc.violation("C19/wrong-winner", "the content planned for a path is not the output of the highest-priority generator for that path (or depends on the listing order)",
                           dict(w, order=list(order), planned={p: list(v) for p, v in nf.items()}, expected={p: list(v) for p, v in want.items()}))
             return
-        want_safe = {p: (g["output"], g["reload"]) for p, g in exp.items() if g["safe"]}
+        want_safe = {p: (g["output"], rl(g["reload"])) for p, g in exp.items() if g["safe"]}
         if {p: tuple(v) for p, v in nfs.items()} != want_safe:
             acc.violation("C19/wrong-safe-set", "safe mode does not plan exactly the winning generators that are marked safe",
                           dict(w, order=list(order), planned={p: list(v) for p, v in nfs.items()}))
@@ -216,7 +243,7 @@ def check_case(seed, acc, unsupported=False, perm=False):
                     acc.violation("C19/wrong-reload-command", "the reload command attached to a file is not the winning generator's", dict(w, mode=str(mode), path=p))
                     return
         # --acl-safe: only the files whose winning generator is marked safe are considered at all (possibly none)
-        safe_new = {p: (g["output"], g["reload"]) for p, g in exp.items() if g["safe"]}
+        safe_new = {p: (g["output"], rl(g["reload"])) for p, g in exp.items() if g["safe"]}
         job = api.PCDeployerJob(dev, types.SimpleNamespace(acl_safe=True, entire_reload=cli_args.EntireReloadFlag.yes))
         try:
             job.parse_result(OldNewResult(device=dev, old_files=dict(old), new_files=dict(first_new), safe_new_files=dict(safe_new)))
@@ -270,7 +297,7 @@ def check_case(seed, acc, unsupported=False, perm=False):
 
 def run_shard(spec, acc):
     if spec["mode"] == "replay":
-        check_case(spec["witness"]["seed"], acc, unsupported=bool(spec["witness"].get("unsupported")), perm=bool(spec["witness"].get("perm")))
+        check_case(spec["witness"]["seed"], acc, unsupported=bool(spec["witness"].get("unsupported")), perm=bool(spec["witness"].get("perm")), inst=bool(spec["witness"].get("inst")))
         return
     tier, k, n = spec["tier"], spec["shard"], spec["nshards"]
     total = 4800 if tier == "quick" else 90000
@@ -284,3 +311,5 @@ def run_shard(spec, acc):
             check_case(rng.randrange(1 << 48), acc, unsupported=True)
         if j % 4 == 1:
             check_case(rng.randrange(1 << 48), acc, perm=True)
+        if j % 4 == 2:
+            check_case(rng.randrange(1 << 48), acc, inst=True, perm=(j % 8 == 2))
